@@ -668,7 +668,13 @@ fn run_faulted(c: &SdCase, acc: &mut Acc, monitor: bool) -> Result<(), Failure> 
             // "a failed initialisation leaves the card marked uninitialised" is only tested where the
             // driver must notice the failure; a card answering garbage, or holding the line low (0x00 reads
             // as "ready"), can fake a complete handshake
-            let init_failure = card.0.borrow().inits_completed == inits_before
+            // an SPI error on the trailing byte of the identification sequence: the card has completed
+            // its side, the driver's call has failed all the same - a failed initialisation
+            let trailer = matches!(f, Fault::SpiError { .. }) && spi_error_in_ignored_trailer(&card);
+            if trailer {
+                acc.class("fault:spi-error-on-identification-trailer");
+            }
+            let init_failure = (card.0.borrow().inits_completed == inits_before || trailer)
                 && reads_before == card.0.borrow().reads_sent
                 && i == first_device_call(c)
                 && r.is_err()
@@ -901,6 +907,36 @@ pub fn enumerate_bit_flips(acc: &mut Acc, test: &dyn Fn(&SdCase, &mut Acc) -> Re
             acc.class("enumerated-bit-flips");
             if let Err(f) = test(&c, acc) {
                 return Some((f, serde_json::to_value(&c).unwrap()));
+            }
+        }
+    }
+    // an SPI bus error at every transaction of identification and of the first transfers
+    for kind in [Kind::V1Sc, Kind::V2Sc, Kind::V2Hc] {
+        let cap = if kind == Kind::V2Hc { Capacity { read_bl_len: 9, c_size_mult: 0, c_size: 0x1010 } } else { Capacity { read_bl_len: 9, c_size_mult: 7, c_size: 2047 } };
+        for use_crc in [false, true] {
+            for (ti, init_polls) in [0u16, 2].into_iter().enumerate() {
+                for nth in 0..200u32 {
+                    let c = SdCase {
+                        kind,
+                        use_crc,
+                        acquire_retries: 2,
+                        cap: cap.clone(),
+                        timing: Timing { ncr: ti as u8, token_delay: 1, busy_write: 2, busy_stop: 1, init_polls, cmd0_ignored: 0, ocr_extra: 0, sluggish: false, busy_stop_write: 0, stop_gap: false, sticky_status: false, nwr_gap: false, nrc_gap: false, oor_status_only: false },
+                        bg_seed: 5 + nth,
+                        calls: vec![
+                            SdCall::Read { block: BlockSel::Zero, n: 1 },
+                            SdCall::Read { block: BlockSel::Zero, n: 1 },
+                            SdCall::Write { block: BlockSel::Exact(5), n: 1, seed: nth },
+                            SdCall::Read { block: BlockSel::Exact(5), n: 2 },
+                        ],
+                        faults: vec![Fault::SpiError { nth_transaction: nth }],
+                    };
+                    acc.evaluations += 1;
+                    acc.class("enumerated-spi-error-positions");
+                    if let Err(f) = test(&c, acc) {
+                        return Some((f, serde_json::to_value(&c).unwrap()));
+                    }
+                }
             }
         }
     }
